@@ -43,6 +43,15 @@ ALIASES = {"utf8": "utf_8"}                       # an alias spelling usable in 
 BASE = {"A": "A", "eacute": "é", "euro": "€", "zhe": "Ж", "hira": "あ", "han": "中"}
 ERRS = ["strict", "replace", "ignore", "xmlcharrefreplace", "backslashreplace"]
 NONE = "none"
+# byte strings that may be undecodable, by kind, and where they are put into the input
+JUNK = {"jff": "ff", "j81": "81",                                       # a byte invalid in the codec
+        "jc3": "c3", "je381": "e381", "j82": "82", "ja4": "a4", "j8fab": "8fab", "jd6": "d6",   # truncated multi-byte sequence
+        "jc080": "c080", "jeda080": "eda080",                           # overlong / illegal continuation (utf-8)
+        "j80": "80", "jbf": "bf"}                                       # lone trail byte
+JUNK_KIND = {"jff": "invalid", "j81": "invalid", "jc080": "illegal", "jeda080": "illegal", "j80": "lone-trail", "jbf": "lone-trail"}
+POSITIONS = ["start", "incomment", "middle", "eol_lf", "eol_crlf", "eof"]
+FOLLOWER = {"start": "sp", "incomment": "sp", "middle": "sp", "eol_lf": "lf", "eol_crlf": "crlf", "eof": "eof"}
+FOLLOW_BYTES = {"sp": b" ", "lf": b"\n", "crlf": b"\r\n", "eof": b""}
 
 
 def build_tables():
@@ -64,7 +73,7 @@ def build_tables():
                 rep[c].append(n)
             except UnicodeEncodeError:
                 pass
-    hexes = sorted(hexes)
+    hexes = sorted(hexes | {"h" + j for j in JUNK.values()})
     dec = {}
     for c in TRUE_CODECS:
         dec[c] = {}
@@ -82,6 +91,28 @@ def build_tables():
                 sym[name] = s
                 rev[s] = name
             dec[c][h] = rev[s]
+    # the junk byte strings in their context (what follows: a space, a line end, the end of the input)
+    junk = {}
+    for c in TRUE_CODECS:
+        junk[c] = {}
+        for j, hx in JUNK.items():
+            junk[c][j] = {}
+            for f, fb in FOLLOW_BYTES.items():
+                try:
+                    t = (b"A" + bytes.fromhex(hx) + fb).decode(PY[c])
+                except UnicodeDecodeError:
+                    junk[c][j][f] = "fail"
+                    continue
+                if not (t.startswith("A") and t.endswith(fb.decode("ascii"))):
+                    raise MachineryError("junk %s swallows its neighbours under %s" % (hx, c))
+                t = t[1:len(t) - len(fb)]
+                if t not in rev:
+                    name = "m%02d" % (len(sym) - len(BASE) + 1)
+                    sym[name] = t
+                    rev[t] = name
+                junk[c][j][f] = rev[t]
+                if dec[c]["h" + hx] != rev[t] or t.encode(PY[c]).hex() != hx:
+                    raise MachineryError("junk %s under %s does not round-trip" % (hx, c))
     enc = {}
     ence = {}
     prefix = {}
@@ -126,7 +157,7 @@ def build_tables():
     canon = {s: ALIASES.get(s, s) for s in spell}
     canon.update({c: c for c in OUT_EXTRA})
     canon[NONE] = NONE
-    return {"spell": spell, "canon": canon, "rep": rep, "enc": enc, "dec": dec, "ence": ence, "prefix": prefix,
+    return {"spell": spell, "canon": canon, "rep": rep, "enc": enc, "dec": dec, "ence": ence, "prefix": prefix, "junk": junk,
             "syms": sorted(sym), "hexes": hexes}, sym
 
 
@@ -148,6 +179,9 @@ def tables_module(tb, cells):
          "T_Out == " + core.tla_set([s(c) for c in OUT_CODECS]),
          "T_OutClass == " + _fn({c: OUT_CLASS.get(c, "ascii_compatible") for c in OUT_CODECS}, s),
          "T_Prefix == " + _fn(tb["prefix"], s),
+         "T_JunkT == " + _fn(tb["junk"], lambda d: _fn(d, lambda d2: _fn(d2, s))),
+         "T_Junk == " + core.tla_set([s(j) for j in JUNK]),
+         "T_JunkHex == " + _fn({j: "h" + h for j, h in JUNK.items()}, s),
          "T_Canon == " + _fn(tb["canon"], s),
          "T_Base == " + core.tla_set([s(c) for c in BASE]),
          "T_Syms == " + core.tla_set([s(c) for c in tb["syms"]]),
@@ -187,12 +221,12 @@ def opt_kwargs(opt):
 
 def cell_tla(c):
     return ('[id |-> %d, form |-> "%s", x |-> "%s", bom |-> %s, cm |-> "%s", ie |-> "%s", c |-> <<"%s", "%s">>, '
-            'path |-> "%s", oe |-> "%s", errs |-> "%s", opt |-> "%s"]'
+            'path |-> "%s", oe |-> "%s", errs |-> "%s", opt |-> "%s", bj |-> "%s", bp |-> "%s"]'
             % (c["id"], c["form"], c["x"], "TRUE" if c["bom"] else "FALSE", c["cm"], c["ie"], c["c"][0], c["c"][1],
-               c["path"], c["oe"], c["errs"], c["opt"]))
+               c["path"], c["oe"], c["errs"], c["opt"], c["bj"], c["bp"]))
 
 
-CFG = """CONSTANTS Codecs <- T_Spellings  Canon <- T_Canon  EncT <- T_EncT  DecT <- T_DecT  EncE <- T_EncE  Prefix <- T_Prefix
+CFG = """CONSTANTS Codecs <- T_Spellings  Canon <- T_Canon  EncT <- T_EncT  DecT <- T_DecT  EncE <- T_EncE  Prefix <- T_Prefix  JunkT <- T_JunkT
 CONSTANTS Cells <- NoCells  Emit = %s
 SPECIFICATION %s
 INVARIANT Precedence
@@ -221,6 +255,8 @@ def make_cells(run, tb):
 
     def add(**kw):
         kw["id"] = len(cells) + 1
+        kw.setdefault("bj", NONE)
+        kw.setdefault("bp", NONE)
         kw["variant"] = rng.randrange(1 << 16)
         # module-layout options: mostly on the module-file paths, where the header matters; given through a
         # TemplateLookup instead of Template on about half of the file-based cells
@@ -254,6 +290,21 @@ def make_cells(run, tb):
                             oe = rng.choice([NONE, NONE] + OUT_CODECS)
                             add(form="bytes", x=x, bom=bom, cm=cm, ie=ie, c=list(pr), path=path, oe=oe,
                                 errs=rng.choice(ERRS))
+    # possibly undecodable input: kind of byte string x position (x declaration x path), for every true codec
+    for x in TRUE_CODECS:
+        rep = tb["rep"][x]
+        for j in JUNK:
+            for pos in POSITIONS:
+                for _ in range(2 if run.thorough else 1):
+                    if pos == "incomment":
+                        cm, ie = x, rng.choice([NONE, x])
+                    elif pos == "start":
+                        cm, ie = NONE, rng.choice([NONE, x, x])
+                    else:
+                        cm, ie = rng.choice([(x, NONE), (NONE, x), (NONE, NONE), (x, x)])
+                    add(form="bytes", x=x, bom=(x == "utf_8" and rng.random() < 0.3), cm=cm, ie=ie,
+                        c=[rng.choice(rep), rng.choice(rep)], path=rng.choice(["bytes", "file", "moddir", "reload"]),
+                        oe=NONE, errs="strict", bj=j, bp=pos)
     # a str given directly: never decoded, the comment still is not content
     for cm in [NONE] + spell:
         for ie in (NONE, "latin_1", "shift_jis"):
@@ -293,15 +344,40 @@ def layout(cell):
     swap = bool(v & 1)
     style = COMMENT_STYLES[(v >> 1) % len(COMMENT_STYLES)]
     eol = "\r\n" if (v >> 4) & 1 else "\n"
-    comment = (style % PY[cell["cm"]] + eol) if cell["cm"] != NONE else ""
+    comment = (style % PY[cell["cm"]] + (" {J} " if cell["bp"] == "incomment" else "") + eol) if cell["cm"] != NONE else ""
     return swap, comment
+
+
+def _place(lines, pos):
+    """Put the junk placeholder {J} into the first line / after the last line of a body or output skeleton."""
+    lines = list(lines)
+    first = lines[0]
+    if pos == "start":
+        lines[0] = "{J} " + first
+    elif pos == "middle":
+        lines[0] = first.replace(" |\n", " {J} |\n")
+    elif pos == "eol_lf":
+        lines[0] = first.replace(" |\n", " |{J}\n")
+    elif pos == "eol_crlf":
+        lines[0] = first.replace(" |\n", " |{J}\r\n")
+    elif pos == "eof":
+        lines.append("{J}")
+    return lines
 
 
 def body_of(cell):
     # a <%! %> block is hoisted to the top of the generated module wherever it stands; it writes nothing
+    b = BODY
     if cell["opt"] in ("modblock", "combo"):
-        return ["<%! MODX = '{1} ' %>" + BODY[0]] + BODY[1:]
-    return BODY
+        b = ["<%! MODX = '{1} ' %>" + BODY[0]] + BODY[1:]
+    return _place(b, cell["bp"])
+
+
+def out_of(cell):
+    return _place(OUT, cell["bp"])
+
+
+MARK = "@@J@@"
 
 
 def concretise(cell, SYM):
@@ -310,10 +386,12 @@ def concretise(cell, SYM):
     a, b = SYM[cell["c"][0]], SYM[cell["c"][1]]
     if swap:
         a, b = b, a
-    text = comment + _subst(body_of(cell), a, b)
+    text = (comment + _subst(body_of(cell), a, b)).replace("{J}", MARK)
     if cell["form"] == "str":
         return {"str": text}
     raw = text.encode(PY[cell["x"]])
+    if cell["bj"] != NONE:
+        raw = raw.replace(MARK.encode("ascii"), bytes.fromhex(JUNK[cell["bj"]]))
     if cell["bom"]:
         raw = codecs.BOM_UTF8 + raw
     return {"hex": raw.hex()}
@@ -329,16 +407,19 @@ def expected_concrete(cell, exp, SYM, tb):
     def pair(v):
         a, b = v[0], v[1]
         return (b, a) if swap else (a, b)
+
+    def junk(v):
+        return SYM[v[2]] if len(v) > 2 else ""
     a, b = pair([SYM[s] for s in exp["uni"]])
-    e["uni"] = _subst(OUT, a, b)
+    e["uni"] = _subst(out_of(cell), a, b).replace("{J}", junk(exp["uni"]))
     a, b = pair([SYM[s] for s in exp["src"]])
-    e["src"] = comment + _subst(body_of(cell), a, b)
+    e["src"] = (comment + _subst(body_of(cell), a, b)).replace("{J}", junk(exp["src"]))
     if cell["opt"] in ("modblock", "combo"):
         e["modx"] = pair([SYM[s] for s in exp["uni"]])[0] + " "
     o = exp["out"]
     if o["ty"] == "str":
         a, b = pair([SYM[s] for s in o["v"]])
-        e["out"] = ["str", _subst(OUT, a, b)]
+        e["out"] = ["str", _subst(out_of(cell), a, b).replace("{J}", junk(o["v"]))]
     elif o["ty"] == "bytes":
         v = list(o["v"])          # the whole document: skT c1 skB c2 skB c1 skB c2 skB, after the prefix
         if swap:
@@ -553,7 +634,7 @@ def check(run):
     res = run.tlc("MC_Encoding", CFG % ("FALSE", "SpecOut" if not skip else "SpecOutDiag"), name="mc-out", extra_files=xf, workers=workers)
     if res.violated:
         run.spec_violation(res)
-    grids = ["SpecIn"] if not skip else []
+    grids = ["SpecIn", "SpecBad"] if not skip else []
     for g in grids:
         res = run.tlc("MC_Encoding", CFG % ("FALSE", g), name="mc-" + g, extra_files=xf, workers=workers, timeout=1500)
         if res.violated:
@@ -592,6 +673,23 @@ def check(run):
         jobs.append({"id": c["id"], "raw": concretise(c, SYM), "path": c["path"], "ie": PY.get(c["ie"], NONE), "oe": PY.get(c["oe"], NONE), "errs": c["errs"],
                      "opt": c["opt"], "via_lookup": c["via_lookup"],
                      "fn": os.path.join(d, "t.html"), "md": os.path.join(d, "mods")})
+    # the compositional abstraction (per-symbol tables) must agree with CPython's strict decode of the WHOLE input on
+    # whether the input is decodable in the codec the specification declares for it -- otherwise the machinery is wrong
+    for c, jb in zip(cells, jobs):
+        if "hex" not in jb["raw"]:
+            continue
+        for e in expected[c["id"]]:
+            if e["enc"] == NONE:
+                continue
+            rawb = bytes.fromhex(jb["raw"]["hex"])
+            rawb = rawb[3:] if c["bom"] else rawb
+            try:
+                rawb.decode(PY[e["enc"]])
+                whole_ok = True
+            except UnicodeDecodeError:
+                whole_ok = False
+            if whole_ok != (e["res"] == "ok"):
+                raise MachineryError("cell %s: tables say %s, CPython's decode of the whole input says %s" % (c, e["res"], whole_ok))
     nchunks = nproc * 2
     chunks = [jobs[k::nchunks] for k in range(nchunks)]
     obs_a = run_children(run, [ch for ch in chunks if ch], "A", "a", nproc)
@@ -619,10 +717,11 @@ def check(run):
                 clause = fails[0]
                 clauses[clause] = clauses.get(clause, 0) + 1
                 pth = c["path"] if which != "first" or c["path"] != "reload" else "moddir"
-                sig = "%s:%s:%s" % (clause, pth, decl_style(c)) + (":opt=" + c["opt"] if c["opt"] != "none" else "")
+                sig = "%s:%s:%s" % (clause, pth, decl_style(c)) + (":opt=" + c["opt"] if c["opt"] != "none" else "") + \
+                    (":junk=%s@%s" % (JUNK_KIND.get(c["bj"], "truncated"), c["bp"]) if c["bj"] != NONE else "")
                 nviol += 1
                 run.violation(sig, "cell %s on path %s: clause %s differs; expected %s, observed %s"
-                              % ({k: c[k] for k in ("form", "x", "bom", "cm", "ie", "c", "oe", "errs", "opt", "via_lookup")}, pth, clause,
+                              % ({k: c[k] for k in ("form", "x", "bom", "cm", "ie", "c", "oe", "errs", "opt", "via_lookup", "bj", "bp")}, pth, clause,
                                  _short(alts[0]), _short(obs)),
                               {"cell": c, "template": jobs[c["id"] - 1]["raw"], "expected": alts, "observed": obs,
                                "symbols": {s: SYM[s] for s in set(c["c"]) | set(sum([e.get("uni", []) for e in expected[c["id"]]], []))}})
